@@ -19,21 +19,24 @@ Definition warn_of (g1 : gstate) (ts0 : tstate) (r : rec) : list line :=
   if negb (r_time r =? 0) && (r_time r <? g_prev g1) then [mkline KWarn 0 (t_dd ts0 + 1) 0 0 0 0 0 0] else [].
 
 Definition step (c : cfg) (tasks : list task) (g : gstate) (i : nat) (r : rec) : list line * gstate :=
+  let pend := t_lost (tget g i) in
   let g1 := consume tasks g i r in
   let ts0 := tget g1 i in
   let warn := warn_of g1 ts0 r in
   let g2 := mkg (g_tasks g1) (g_first g1) (if r_time r =? 0 then g_prev g1 else r_time r) in
   let ts1 := stamp ts0 (r_time r) in
   match r_type r with
+  | LOST =>
+      (warn ++ (if t_usc ts0 =? 0 then [] else [mk KLost i ts0 (g_first g2) (t_dd ts0 + 1) (r_addr r) 0 0]), g2)
   | ENTRY =>
-      let ts2 := if is_fork c (r_addr r) then set_fork ts1 (t_dd ts1 + 1) else ts1 in
-      let depth := t_dd ts2 in
+      let depth := if pend then t_sc ts1 - 1 else t_dd ts1 in
+      let ts2 := if is_fork c (r_addr r) then set_fork ts1 (depth + 1) else ts1 in
       let idx := t_sc ts2 - 1 in
       (warn ++ [mk KOpen i ts2 (g_first g2) depth (r_addr r) 0 (f_addr (fget (t_stack ts2) idx))],
        tset g2 i (set_dd ts2 (depth + 1)))
   | EXIT =>
       let f := fget (t_stack ts1) (t_sc ts1) in
-      let depth := N.pred (t_dd ts1) in
+      let depth := if pend then t_sc ts1 else N.pred (t_dd ts1) in
       let ts2 := set_dd ts1 depth in
       (warn ++ [mk KClose i ts2 (g_first g2) depth (r_addr r) (f_time f) (f_addr f)], tset g2 i ts2)
   end.
@@ -48,6 +51,8 @@ Proof.
   - destruct tl as [|[j r'] tl']; cbn [andb];
       match goal with |- context [run c tasks ?l ?g] => destruct (run c tasks l g) as [out g''] end;
       rewrite <- app_assoc; reflexivity.
+  - match goal with |- context [run c tasks ?l ?g] => destruct (run c tasks l g) as [out g''] end.
+    rewrite <- app_assoc. reflexivity.
   - match goal with |- context [run c tasks ?l ?g] => destruct (run c tasks l g) as [out g''] end.
     rewrite <- app_assoc. reflexivity.
 Qed.
@@ -66,22 +71,25 @@ Qed.
 Lemma warn_of_warn g1 ts0 r : Forall (fun w => not_warn w = false) (warn_of g1 ts0 r).
 Proof. unfold warn_of. destruct (_ && _); repeat constructor. Qed.
 
-Lemma step_tags c tasks g i r :
+Lemma step_tags c tasks g i r : is_lost r = false ->
   map tag_of_line (filter not_warn (fst (step c tasks g i r))) = [(i, r_time r)].
 Proof.
-  unfold step. set (g1 := consume tasks g i r).
-  destruct (r_type r); cbn [fst]; rewrite filter_warn_app by (auto using warn_of_warn); cbn [map];
+  unfold step, is_lost. set (g1 := consume tasks g i r).
+  destruct (r_type r); intros Hl; try discriminate; cbn [fst]; rewrite filter_warn_app by (auto using warn_of_warn); cbn [map];
     unfold tag_of_line, mk; cbn [l_task l_time]; try destruct (is_fork c (r_addr r)); reflexivity.
 Qed.
 
-Lemma run_nofold_tags c tasks : c_fold c = false -> forall l g,
+Definition no_lost (l : list (nat * rec)) : Prop := Forall (fun p => is_lost (snd p) = false) l.
+
+Lemma run_nofold_tags c tasks : c_fold c = false -> forall l g, no_lost l ->
   map tag_of_line (filter not_warn (fst (run c tasks l g))) = map tag_of_rec l.
 Proof.
-  intros Hf. induction l as [|[i r] tl IH]; intros g; [reflexivity|].
+  intros Hf. induction l as [|[i r] tl IH]; intros g Hnl; [reflexivity|].
+  inversion Hnl as [|? ? Hr Hnl']; subst. cbn [snd] in Hr.
   rewrite (run_nofold_cons _ _ _ _ _ _ Hf).
-  pose proof (step_tags c tasks g i r) as Hs.
+  pose proof (step_tags c tasks g i r Hr) as Hs.
   destruct (step c tasks g i r) as [ls g'].
-  specialize (IH g'). destruct (run c tasks tl g') as [out g''].
+  specialize (IH g' Hnl'). destruct (run c tasks tl g') as [out g''].
   cbn [fst] in *. rewrite filter_app, map_app, Hs, IH. reflexivity.
 Qed.
 
@@ -121,6 +129,7 @@ Qed.
 
 Definition rel (ts : tstate) (ss : sstate) : Prop :=
   t_set ts = s_set ss /\ t_dd ts = s_dd ss /\ t_fork_dd ts = s_fork ss /\ t_orphan ts = s_orphan ss /\
+  t_lost ts = false /\
   (s_set ss = true -> t_sc ts = N.of_nat (length (s_stk ss)) /\ live (t_stack ts) (s_stk ss)).
 
 Lemma rel_init o : rel (tstate_init o) (mkss false 0 0 [] o).
@@ -130,10 +139,36 @@ Proof. apply (rel_init false). Qed.
 
 Lemma consume_orphan inh ts r : t_orphan (consume_task inh ts r) = t_orphan ts.
 Proof.
-  unfold consume_task, count, account, first_setup.
-  destruct (t_set ts); destruct (r_type r); cbn [t_orphan t_sc]; try reflexivity;
-    match goal with |- context [if ?b then _ else _] => destruct b end; reflexivity.
+  assert (F : t_orphan (first_setup inh ts r) = t_orphan ts) by (unfold first_setup; destruct (t_set ts); reflexivity).
+  unfold consume_task. destruct (t_lost (first_setup inh ts r) && is_lost r); [exact F|].
+  unfold count. cbn [t_orphan].
+  assert (A : forall x, t_orphan (account x r) = t_orphan x).
+  { intros x. unfold account. destruct (r_type r); try reflexivity. destruct (t_sc x =? 0); reflexivity. }
+  assert (R : forall x, t_orphan (resync x r) = t_orphan x) by (intros x; unfold resync; destruct (t_lost x); reflexivity).
+  rewrite A, R. exact F.
 Qed.
+
+Lemma first_setup_lost inh ts r : t_lost (first_setup inh ts r) = t_lost ts.
+Proof. unfold first_setup. destruct (t_set ts); reflexivity. Qed.
+
+(* without a pending LOST marker the lost_seen part does nothing *)
+Lemma consume_nolost inh ts r : t_lost ts = false ->
+  consume_task inh ts r = count (account (first_setup inh ts r) r) r.
+Proof.
+  intros H. unfold consume_task. rewrite first_setup_lost, H. cbn [andb].
+  unfold resync. rewrite first_setup_lost, H. reflexivity.
+Qed.
+
+Lemma consume_lost_flag inh ts r : t_lost ts = false -> t_lost (consume_task inh ts r) = is_lost r.
+Proof.
+  intros H. destruct ts as [st sc dd fd stk t tl orp usc lost]. cbn [t_lost] in H. subst lost.
+  unfold consume_task, count, account, resync, first_setup, is_lost.
+  cbn [t_set t_sc t_dd t_fork_dd t_stack t_ts t_ts_last t_orphan t_usc t_lost].
+  destruct st, (r_type r);
+    cbn [t_set t_sc t_dd t_fork_dd t_stack t_ts t_ts_last t_orphan t_usc t_lost andb];
+    repeat match goal with |- context [if ?b then _ else _] => destruct b end; reflexivity.
+Qed.
+
 Lemma s_first_orphan inh ss r : s_orphan (s_first inh ss r) = s_orphan ss.
 Proof. unfold s_first. destruct (s_set ss); reflexivity. Qed.
 
@@ -144,7 +179,7 @@ Lemma setup_rel inh ts ss r : rel ts ss ->
   t_sc ts' = N.of_nat (length (s_stk ss')) /\ live (t_stack ts') (s_stk ss') /\
   t_ts ts' = t_ts ts /\ t_ts_last ts' = t_ts_last ts.
 Proof.
-  intros (Hs & Hd & Hf & Ho & Hl). unfold first_setup, s_first. rewrite Hs.
+  intros (Hs & Hd & Hf & Ho & _ & Hl). unfold first_setup, s_first. rewrite Hs.
   destruct (s_set ss) eqn:E.
   - destruct (Hl eq_refl) as [Hsc Hlive]. repeat split; auto; congruence.
   - cbn [t_set s_set t_dd s_dd t_fork_dd s_fork t_sc s_stk t_stack t_ts t_ts_last].
@@ -162,7 +197,8 @@ Lemma entry_rel inh ts ss r : rel ts ss -> r_type r = ENTRY ->
   t_sc ts' = N.of_nat (length (r_time r :: s_stk ss')) /\ live (t_stack ts') (r_time r :: s_stk ss').
 Proof.
   intros Hrel Hty. destruct (setup_rel inh ts ss r Hrel) as (H1 & H2 & H3 & H4 & H5 & H6 & _).
-  unfold consume_task, count, account. rewrite Hty.
+  rewrite consume_nolost by (destruct Hrel as (_ & _ & _ & _ & Hlo & _); exact Hlo).
+  unfold count, account. rewrite Hty.
   set (ts1 := first_setup inh ts r) in *. set (ss1 := s_first inh ss r) in *.
   cbn [t_set t_dd t_fork_dd t_sc t_stack].
   repeat split; auto.
@@ -184,7 +220,8 @@ Lemma exit_rel inh ts ss r t0 stk' : rel ts ss -> r_type r = EXIT -> s_stk (s_fi
   f_time (fget (t_stack ts') (t_sc ts')) = sub64 (r_time r) t0.
 Proof.
   intros Hrel Hty Hstk. destruct (setup_rel inh ts ss r Hrel) as (H1 & H2 & H3 & H4 & H5 & H6 & _).
-  unfold consume_task, count, account. rewrite Hty.
+  rewrite consume_nolost by (destruct Hrel as (_ & _ & _ & _ & Hlo & _); exact Hlo).
+  unfold count, account. rewrite Hty.
   set (ts1 := first_setup inh ts r) in *. set (ss1 := s_first inh ss r) in *.
   rewrite Hstk in *. cbn [length] in H5.
   destruct (t_sc ts1 =? 0) eqn:Ez; [lia|].
@@ -290,14 +327,17 @@ Proof.
   pose proof (inherit_rel tasks g S i HR) as Hinh.
   destruct (wfrem_first (s_inherit tasks S i) _ _ _ Hwf) as (last & Hwf1 & Hle & Hlast & Hbound).
   assert (Hig : (i < length (g_tasks g))%nat) by lia.
-  cbn [srun]. unfold step.
+  assert (Hpend : t_lost (tget g i) = false) by (destruct (Hall i) as (_ & _ & _ & _ & Hlo & _); exact Hlo).
+  cbn [srun]. unfold step. rewrite Hpend.
   set (g1 := consume tasks g i r).
   assert (Hts0 : tget g1 i = consume_task (s_inherit tasks S i) (tget g i) r).
   { unfold g1, consume, tget. cbn [g_tasks]. rewrite nth_tupd by assumption. rewrite Nat.eqb_refl, Hinh. reflexivity. }
   set (ss := s_first (s_inherit tasks S i) (nth i S sstate0) r) in *.
   assert (E0 : t_orphan (tget g1 i) = s_orphan ss).
   { rewrite Hts0, consume_orphan. unfold ss. rewrite s_first_orphan. destruct (Hall i) as (_ & _ & _ & Ho & _). exact Ho. }
-  destruct (r_type r) eqn:Hty.
+  assert (EL : t_lost (tget g1 i) = is_lost r) by (rewrite Hts0; apply consume_lost_flag; exact Hpend).
+  unfold is_lost in EL.
+  destruct (r_type r) eqn:Hty; [| |cbn [wf_stream] in Hwf1; rewrite Hty in Hwf1; rewrite !andb_false_r in Hwf1; discriminate].
   - (* ENTRY *)
     destruct (entry_rel (s_inherit tasks S i) _ _ r (Hall i) Hty) as (E1 & E2 & E3 & E4 & E5).
     fold ss in E2, E3, E4, E5. rewrite <- Hts0 in E1, E2, E3, E4, E5.
@@ -316,8 +356,8 @@ Proof.
         destruct (Nat.eqb j i) eqn:Eji.
         + unfold rel, is_fork. cbn [c_forks].
           destruct (existsb (N.eqb (r_addr r)) forks);
-            cbn [set_dd set_fork stamp t_set t_dd t_fork_dd t_sc t_stack t_orphan s_set s_dd s_fork s_stk s_orphan];
-            unfold tget in *; rewrite ?E1, ?E2, ?E3, ?E0; repeat split; auto.
+            cbn [set_dd set_fork stamp t_set t_dd t_fork_dd t_sc t_stack t_orphan t_lost s_set s_dd s_fork s_stk s_orphan];
+            unfold tget in *; rewrite ?E1, ?E2, ?E3, ?E0, ?EL; repeat split; auto.
         + unfold g1, consume. cbn [g_tasks]. rewrite nth_tupd by assumption. rewrite Eji. apply Hall. }
     split.
     { rewrite nth_supd by assumption. rewrite Nat.eqb_refl. unfold wfrem. cbn [s_set s_stk].
@@ -345,8 +385,8 @@ Proof.
         assert (Hg1 : (i < length (g_tasks g1))%nat) by (unfold g1, consume; cbn [g_tasks]; rewrite length_tupd; lia).
         rewrite nth_tupd by assumption. rewrite nth_supd by assumption.
         destruct (Nat.eqb j i) eqn:Eji.
-        + unfold rel. cbn [set_dd stamp t_set t_dd t_fork_dd t_sc t_stack t_orphan s_set s_dd s_fork s_stk s_orphan].
-          unfold tget in *. rewrite ?E1, ?E2, ?E3, ?E0. repeat split; auto.
+        + unfold rel. cbn [set_dd stamp t_set t_dd t_fork_dd t_sc t_stack t_orphan t_lost s_set s_dd s_fork s_stk s_orphan].
+          unfold tget in *. rewrite ?E1, ?E2, ?E3, ?E0, ?EL. repeat split; auto.
         + unfold g1, consume. cbn [g_tasks]. rewrite nth_tupd by assumption. rewrite Eji. apply Hall. }
     split.
     { rewrite nth_supd by assumption. rewrite Nat.eqb_refl. unfold wfrem. cbn [s_set s_stk].
@@ -461,7 +501,7 @@ Proof.
   intros Hi Hwf ss.
   destruct (wfrem_first (s_inherit tasks S i) _ _ _ Hwf) as (last & Hwf1 & Hle & Hlast & Hbound).
   fold ss in Hwf1, Hle. cbn [srun]. fold ss. cbn [spec_task wf_stream] in *.
-  destruct (r_type r) eqn:Hty.
+  destruct (r_type r) eqn:Hty; [| |rewrite !andb_false_r in Hwf1; discriminate].
   - eexists. eexists. split; [reflexivity|]. split.
     { unfold wfrem. cbn [s_set s_stk]. exists (r_time r). split.
       - cbn [length]. replace (N.of_nat (Datatypes.S (length (s_stk ss)))) with (N.of_nat (length (s_stk ss)) + 1) by lia. lia.
@@ -574,7 +614,7 @@ Definition core_of (e : event) : core :=
 
 (* the reader state without the two timestamp fields *)
 Definition strip (ts : tstate) : tstate :=
-  mkts (t_set ts) (t_sc ts) (t_dd ts) (t_fork_dd ts) (t_stack ts) 0 0 (t_orphan ts).
+  mkts (t_set ts) (t_sc ts) (t_dd ts) (t_fork_dd ts) (t_stack ts) 0 0 (t_orphan ts) (t_usc ts) (t_lost ts).
 Definition STR (g : gstate) : list tstate := map strip (g_tasks g).
 
 Definition inh_of (tasks : list task) (T : list tstate) (i : nat) : N :=
@@ -585,14 +625,18 @@ Definition inh_of (tasks : list task) (T : list tstate) (i : nat) : N :=
 
 (* one record, on stripped states, producing core events *)
 Definition cstep (forks : list N) (i : nat) (inh : N) (ts : tstate) (r : rec) : list core * tstate :=
+  let pend := t_lost ts in
   let ts0 := consume_task inh ts r in
   match r_type r with
+  | LOST => ([], ts0)
   | ENTRY =>
-      let ts2 := if is_forkb forks (r_addr r) then set_fork ts0 (t_dd ts0 + 1) else ts0 in
-      ([(true, i, t_dd ts2, r_addr r, 0)], set_dd ts2 (t_dd ts2 + 1))
+      let depth := if pend then t_sc ts0 - 1 else t_dd ts0 in
+      let ts2 := if is_forkb forks (r_addr r) then set_fork ts0 (depth + 1) else ts0 in
+      ([(true, i, depth, r_addr r, 0)], set_dd ts2 (depth + 1))
   | EXIT =>
       let f := fget (t_stack ts0) (t_sc ts0) in
-      ([(false, i, N.pred (t_dd ts0), 0, f_time f)], set_dd ts0 (N.pred (t_dd ts0)))
+      let depth := if pend then t_sc ts0 else N.pred (t_dd ts0) in
+      ([(false, i, depth, 0, f_time f)], set_dd ts0 depth)
   end.
 
 Fixpoint crun (forks : list N) (tasks : list task) (l : list (nat * rec)) (T : list tstate) : list core :=
@@ -606,31 +650,53 @@ Fixpoint crun (forks : list N) (tasks : list task) (l : list (nat * rec)) (T : l
 Lemma strip_idem ts : strip (strip ts) = strip ts.
 Proof. reflexivity. Qed.
 
+Lemma strip_first_setup inh ts r : strip (first_setup inh ts r) = first_setup inh (strip ts) r.
+Proof. destruct ts as [st sc dd fd stk t tl orp usc lost]. unfold first_setup, strip. cbn. destruct st; reflexivity. Qed.
+Lemma strip_resync ts r : strip (resync ts r) = resync (strip ts) r.
+Proof. destruct ts as [st sc dd fd stk t tl orp usc lost]. unfold resync, strip. cbn. destruct lost; reflexivity. Qed.
+Lemma strip_account ts r : strip (account ts r) = account (strip ts) r.
+Proof.
+  destruct ts as [st sc dd fd stk t tl orp usc lost]. unfold account, strip. cbn.
+  destruct (r_type r); try reflexivity. destruct (sc =? 0); reflexivity.
+Qed.
+Lemma strip_count ts r : strip (count ts r) = count (strip ts) r.
+Proof. destruct ts as [st sc dd fd stk t tl orp usc lost]. reflexivity. Qed.
+
 Lemma strip_consume inh ts r : strip (consume_task inh ts r) = consume_task inh (strip ts) r.
 Proof.
-  destruct ts as [st sc dd fd stk t tl orp]. unfold consume_task, count, account, first_setup, strip.
-  cbn [t_set t_sc t_dd t_fork_dd t_stack t_ts t_ts_last t_orphan].
-  destruct st; destruct (r_type r); cbn [t_set t_sc t_dd t_fork_dd t_stack t_ts t_ts_last t_orphan];
-    try reflexivity;
-    match goal with |- context [if ?b then _ else _] => destruct b end; reflexivity.
+  unfold consume_task. rewrite <- strip_first_setup.
+  replace (t_lost (strip (first_setup inh ts r))) with (t_lost (first_setup inh ts r)) by reflexivity.
+  destruct (t_lost (first_setup inh ts r) && is_lost r); [reflexivity|].
+  rewrite strip_count, strip_account, strip_resync. reflexivity.
 Qed.
+
+Lemma ts_first_setup inh ts r : t_ts (first_setup inh ts r) = t_ts ts /\ t_ts_last (first_setup inh ts r) = t_ts_last ts.
+Proof. unfold first_setup. destruct (t_set ts); split; reflexivity. Qed.
+Lemma ts_resync ts r : t_ts (resync ts r) = t_ts ts /\ t_ts_last (resync ts r) = t_ts_last ts.
+Proof. unfold resync. destruct (t_lost ts); split; reflexivity. Qed.
+Lemma ts_account ts r : t_ts (account ts r) = t_ts ts /\ t_ts_last (account ts r) = t_ts_last ts.
+Proof. unfold account. destruct (r_type r); try (split; reflexivity). destruct (t_sc ts =? 0); split; reflexivity. Qed.
 
 Lemma consume_ts inh ts r : t_ts (consume_task inh ts r) = t_ts ts /\ t_ts_last (consume_task inh ts r) = t_ts_last ts.
 Proof.
-  destruct ts as [st sc dd fd stk t tl orp]. unfold consume_task, count, account, first_setup.
-  cbn [t_set t_sc t_dd t_fork_dd t_stack t_ts t_ts_last t_orphan].
-  destruct st; destruct (r_type r); cbn [t_set t_sc t_dd t_fork_dd t_stack t_ts t_ts_last t_orphan];
-    try (split; reflexivity);
-    match goal with |- context [if ?b then _ else _] => destruct b end; split; reflexivity.
+  unfold consume_task. destruct (t_lost (first_setup inh ts r) && is_lost r); [apply ts_first_setup|].
+  unfold count. cbn [t_ts t_ts_last].
+  destruct (ts_account (resync (first_setup inh ts r) r) r) as [A1 A2].
+  destruct (ts_resync (first_setup inh ts r) r) as [B1 B2]. destruct (ts_first_setup inh ts r) as [C1 C2].
+  split; congruence.
 Qed.
+
+Lemma set_first_setup inh ts r : t_set (first_setup inh ts r) = true.
+Proof. unfold first_setup. destruct (t_set ts) eqn:E; [exact E|reflexivity]. Qed.
+Lemma set_resync ts r : t_set (resync ts r) = t_set ts.
+Proof. unfold resync. destruct (t_lost ts); reflexivity. Qed.
+Lemma set_account ts r : t_set (account ts r) = t_set ts.
+Proof. unfold account. destruct (r_type r); try reflexivity. destruct (t_sc ts =? 0); reflexivity. Qed.
 
 Lemma consume_set inh ts r : t_set (consume_task inh ts r) = true.
 Proof.
-  destruct ts as [st sc dd fd stk t tl orp]. unfold consume_task, count, account, first_setup.
-  cbn [t_set t_sc t_dd t_fork_dd t_stack t_ts t_ts_last t_orphan].
-  destruct st; destruct (r_type r); cbn [t_set t_sc t_dd t_fork_dd t_stack t_ts t_ts_last t_orphan];
-    try reflexivity;
-    match goal with |- context [if ?b then _ else _] => destruct b end; reflexivity.
+  unfold consume_task. destruct (t_lost (first_setup inh ts r) && is_lost r); [apply set_first_setup|].
+  unfold count. cbn [t_set]. rewrite set_account, set_resync. apply set_first_setup.
 Qed.
 
 Lemma consume_inh_irrelevant inh inh' ts r : t_set ts = true -> consume_task inh ts r = consume_task inh' ts r.
@@ -655,6 +721,30 @@ Lemma tget_consume tasks g i r : (i < length (g_tasks g))%nat ->
   tget (consume tasks g i r) i = consume_task (inherit tasks g i) (tget g i) r.
 Proof. intros H. unfold consume, tget. cbn [g_tasks]. rewrite nth_tupd by assumption. rewrite Nat.eqb_refl. reflexivity. Qed.
 
+Lemma lost_resync_clear ts r : t_lost (resync ts r) = false.
+Proof. unfold resync. destruct (t_lost ts) eqn:E; [reflexivity|exact E]. Qed.
+Lemma lost_account ts r : is_lost r = false -> t_lost (account ts r) = t_lost ts.
+Proof. unfold account, is_lost. destruct (r_type r); intros H; try discriminate; try reflexivity. destruct (t_sc ts =? 0); reflexivity. Qed.
+
+(* any record that is not a LOST marker ends the "marker pending" state *)
+Lemma consume_lost_clear inh ts r : is_lost r = false -> t_lost (consume_task inh ts r) = false.
+Proof.
+  intros H. unfold consume_task. rewrite H, andb_false_r. unfold count. cbn [t_lost].
+  rewrite lost_account by assumption. apply lost_resync_clear.
+Qed.
+
+Lemma events_warn_lost ws ls : Forall (fun w => not_warn w = false) ws ->
+  Forall (fun l => l_kind l = KLost) ls -> events_of (ws ++ ls) = [].
+Proof.
+  intros Hw Hl. unfold events_of. rewrite flat_map_app.
+  assert (E1 : flat_map events_of_line ws = []).
+  { induction Hw as [|w ws Hw1 _ IH]; [reflexivity|]. cbn [flat_map]. rewrite IH.
+    unfold not_warn in Hw1. unfold events_of_line. destruct (l_kind w); try discriminate. reflexivity. }
+  assert (E2 : flat_map events_of_line ls = []).
+  { induction Hl as [|l ls Hl1 _ IH]; [reflexivity|]. cbn [flat_map]. rewrite IH. unfold events_of_line. rewrite Hl1. reflexivity. }
+  rewrite E1, E2. reflexivity.
+Qed.
+
 (* a record processed without folding, seen on stripped states *)
 Lemma step_core c forks tasks g i r : (i < length (g_tasks g))%nat -> c_forks c = forks ->
   map core_of (events_of (fst (step c tasks g i r))) =
@@ -665,26 +755,32 @@ Proof.
   intros Hi Hfk. unfold step, cstep.
   rewrite (tget_consume _ _ _ _ Hi).
   rewrite nth_STR, <- inherit_STR, <- strip_consume.
+  replace (t_lost (strip (tget g i))) with (t_lost (tget g i)) by reflexivity.
+  set (pend := t_lost (tget g i)).
   set (ts0 := consume_task (inherit tasks g i) (tget g i) r).
   unfold is_fork, is_forkb. rewrite Hfk.
   destruct (r_type r); cbn [fst snd].
   - split.
     + rewrite events_warn_app by apply warn_of_warn. unfold events_of_line, mk. cbn [l_kind l_task l_indent l_name map core_of e_open e_task e_indent e_name e_dur].
-      destruct (existsb (N.eqb (r_addr r)) forks); reflexivity.
+      destruct (existsb (N.eqb (r_addr r)) forks), pend; reflexivity.
     + unfold STR, tset, consume. cbn [g_tasks]. rewrite tupd_tupd, map_tupd. f_equal.
-      destruct (existsb (N.eqb (r_addr r)) forks); reflexivity.
+      destruct (existsb (N.eqb (r_addr r)) forks), pend; reflexivity.
   - split.
     + rewrite events_warn_app by apply warn_of_warn. unfold events_of_line, mk. cbn [l_kind l_task l_indent l_name l_dur map core_of e_open e_task e_indent e_name e_dur].
-      reflexivity.
-    + unfold STR, tset, consume. cbn [g_tasks]. rewrite tupd_tupd, map_tupd. reflexivity.
+      destruct pend; reflexivity.
+    + unfold STR, tset, consume. cbn [g_tasks]. rewrite tupd_tupd, map_tupd. try (f_equal; destruct pend; reflexivity); reflexivity.
+  - split.
+    + rewrite events_warn_lost; [reflexivity|apply warn_of_warn|].
+      destruct (t_usc ts0 =? 0); repeat constructor.
+    + unfold STR, consume. cbn [g_tasks]. rewrite map_tupd. reflexivity.
 Qed.
 
 Lemma length_step c tasks g i r : length (g_tasks (snd (step c tasks g i r))) = length (g_tasks g).
 Proof.
-  unfold step. destruct (r_type r); cbn [snd]; unfold tset, consume; cbn [g_tasks]; rewrite !length_tupd; reflexivity.
+  unfold step. destruct (r_type r); cbn [snd]; unfold tset, consume; cbn [g_tasks]; rewrite ?length_tupd; reflexivity.
 Qed.
 
-(* unfolding [run] on its three branches *)
+(* unfolding [run] on its branches *)
 Definition leaf_cond (c : cfg) (i : nat) (r : rec) (tl : list (nat * rec)) : bool :=
   match r_type r, tl with
   | ENTRY, (j, r') :: _ => c_fold c && Nat.eqb j i && (r_depth r' =? r_depth r) && is_exit r'
@@ -703,20 +799,24 @@ Proof.
       rewrite <- app_assoc; reflexivity.
   - match goal with |- context [run c tasks ?l ?g] => destruct (run c tasks l g) as [out g''] end.
     rewrite <- app_assoc. reflexivity.
+  - match goal with |- context [run c tasks ?l ?g] => destruct (run c tasks l g) as [out g''] end.
+    rewrite <- app_assoc. reflexivity.
 Qed.
 
 (* the folded branch: state and line *)
 Definition leaf_step (c : cfg) (tasks : list task) (g : gstate) (i : nat) (r r' : rec) : list line * gstate :=
+  let pend := t_lost (tget g i) in
   let g1 := consume tasks g i r in
   let ts0 := tget g1 i in
   let warn := warn_of g1 ts0 r in
   let g2 := mkg (g_tasks g1) (g_first g1) (if r_time r =? 0 then g_prev g1 else r_time r) in
   let ts1 := stamp ts0 (r_time r) in
-  let ts2 := if is_fork c (r_addr r) then set_fork ts1 (t_dd ts1 + 1) else ts1 in
-  let g3 := consume tasks (tset g2 i ts2) i r' in
+  let depth := if pend then t_sc ts1 - 1 else t_dd ts1 in
+  let ts2 := if is_fork c (r_addr r) then set_fork ts1 (depth + 1) else ts1 in
+  let g3 := consume tasks (tset g2 i (set_dd ts2 depth)) i r' in
   let ts3 := tget g3 i in
   let f := fget (t_stack ts3) (t_sc ts2 - 1) in
-  (warn ++ [mk KLeaf i ts3 (g_first g3) (t_dd ts2) (r_addr r) (f_time f) (f_addr f)], g3).
+  (warn ++ [mk KLeaf i ts3 (g_first g3) depth (r_addr r) (f_time f) (f_addr f)], g3).
 
 Lemma run_cons_leaf c tasks i r j r' tl' g : leaf_cond c i r ((j, r') :: tl') = true ->
   run c tasks ((i, r) :: (j, r') :: tl') g =
@@ -724,9 +824,34 @@ Lemma run_cons_leaf c tasks i r j r' tl' g : leaf_cond c i r ((j, r') :: tl') = 
   let '(out, g'') := run c tasks tl' g' in (ls ++ out, g'').
 Proof.
   intros Hf. cbn [run]. unfold leaf_step, warn_of. unfold leaf_cond in Hf.
-  destruct (r_type r); [|discriminate]. rewrite Hf.
+  destruct (r_type r); try discriminate. rewrite Hf.
   match goal with |- context [run c tasks ?l ?g] => destruct (run c tasks l g) as [out g''] end.
   rewrite <- app_assoc. reflexivity.
+Qed.
+
+(* consuming a record does not look at the display depth (once the task is set up) *)
+Lemma account_set_dd x r d : account (set_dd x d) r = set_dd (account x r) d.
+Proof. unfold account, set_dd. cbn [t_set t_sc t_dd t_fork_dd t_stack t_ts t_ts_last t_orphan t_usc t_lost].
+  destruct (r_type r); try reflexivity. destruct (t_sc x =? 0); reflexivity. Qed.
+Lemma count_set_dd x r d : count (set_dd x d) r = set_dd (count x r) d.
+Proof. reflexivity. Qed.
+Lemma consume_set_dd inh x r d : t_set x = true -> t_lost x = false ->
+  consume_task inh (set_dd x d) r = set_dd (consume_task inh x r) d.
+Proof.
+  intros Hs Hl. rewrite !consume_nolost by (try exact Hl; cbn [set_dd t_lost]; exact Hl).
+  unfold first_setup. cbn [set_dd t_set]. rewrite Hs. rewrite account_set_dd, count_set_dd. reflexivity.
+Qed.
+
+Lemma consume_exit_dd r' : r_type r' = EXIT -> forall (x : tstate) (d : N), t_set x = true -> t_lost x = false ->
+  consume_task 0 (set_dd x (d + 1)) r' = set_dd (consume_task 0 (set_dd x d) r') (d + 1) /\
+  t_dd (consume_task 0 (set_dd x d) r') = d /\
+  t_sc (consume_task 0 (set_dd x d) r') = N.pred (t_sc x) /\
+  t_lost (consume_task 0 (set_dd x d) r') = false.
+Proof.
+  intros Hty x d Hs Hl. rewrite !consume_set_dd by assumption. repeat split; try reflexivity.
+  - cbn [set_dd t_sc]. rewrite consume_nolost by assumption. unfold first_setup. rewrite Hs.
+    unfold count, account. rewrite Hty. cbn [t_sc]. destruct (t_sc x =? 0); reflexivity.
+  - cbn [set_dd t_lost]. apply consume_lost_clear. unfold is_lost. rewrite Hty. reflexivity.
 Qed.
 
 (* the folded line is the Open and the Close of the two unfolded steps *)
@@ -742,81 +867,65 @@ Proof.
   intros Hi Hfk Hty Hty'. cbn zeta. unfold leaf_step, cstep. rewrite Hty, Hty'.
   rewrite (tget_consume _ _ _ _ Hi).
   rewrite nth_STR, <- inherit_STR, <- strip_consume.
+  replace (t_lost (strip (tget g i))) with (t_lost (tget g i)) by reflexivity.
+  set (pend := t_lost (tget g i)).
   set (ts0 := consume_task (inherit tasks g i) (tget g i) r).
   unfold is_fork, is_forkb. rewrite Hfk.
   set (fk := existsb (N.eqb (r_addr r)) forks).
   set (ts1 := stamp ts0 (r_time r)).
-  set (ts2 := if fk then set_fork ts1 (t_dd ts1 + 1) else ts1).
+  set (depth := if pend then t_sc ts1 - 1 else t_dd ts1).
+  set (ts2 := if fk then set_fork ts1 (depth + 1) else ts1).
+  change (if pend then t_sc (strip ts0) - 1 else t_dd (strip ts0)) with depth.
   assert (Hlen : (i < length (STR g))%nat) by (rewrite length_STR; exact Hi).
   rewrite nth_tupd by assumption. rewrite Nat.eqb_refl.
   cbn [fst snd].
   (* the state in which r' is consumed *)
   set (g2 := tset (mkg (g_tasks (consume tasks g i r)) (g_first (consume tasks g i r))
-                       (if r_time r =? 0 then g_prev (consume tasks g i r) else r_time r)) i ts2).
+                       (if r_time r =? 0 then g_prev (consume tasks g i r) else r_time r)) i (set_dd ts2 depth)).
   assert (Hi2 : (i < length (g_tasks g2))%nat).
   { unfold g2, tset, consume. cbn [g_tasks]. rewrite !length_tupd. exact Hi. }
   rewrite (tget_consume _ _ _ _ Hi2).
-  assert (Hget2 : tget g2 i = ts2).
+  assert (Hget2 : tget g2 i = set_dd ts2 depth).
   { unfold g2, tset, tget, consume. cbn [g_tasks]. rewrite nth_tupd by (rewrite length_tupd; exact Hi).
     rewrite Nat.eqb_refl. reflexivity. }
   rewrite Hget2.
-  assert (Hset2 : t_set ts2 = true).
-  { unfold ts2, ts1. destruct fk; cbn [set_fork stamp t_set]; apply consume_set. }
+  assert (Hset0 : t_set ts0 = true) by apply consume_set.
+  assert (Hlost0 : t_lost ts0 = false) by (apply consume_lost_clear; unfold is_lost; rewrite Hty; reflexivity).
+  assert (Hset2 : t_set ts2 = true) by (unfold ts2, ts1; destruct fk; cbn [set_fork stamp t_set]; exact Hset0).
+  assert (Hlost2 : t_lost ts2 = false) by (unfold ts2, ts1; destruct fk; cbn [set_fork stamp t_lost]; exact Hlost0).
   (* stripped view of ts2 and of the state after the unfolded first step *)
-  set (sa := if fk then set_fork (strip ts0) (t_dd (strip ts0) + 1) else strip ts0).
+  set (sa := if fk then set_fork (strip ts0) (depth + 1) else strip ts0).
   assert (Hsa : strip ts2 = sa) by (unfold ts2, ts1, sa; destruct fk; reflexivity).
-  assert (Hdd : t_dd sa = t_dd ts2) by (rewrite <- Hsa; reflexivity).
-  set (ta := set_dd sa (t_dd sa + 1)).
-  assert (Hseta : t_set ta = true).
-  { unfold ta. cbn [set_dd t_set]. rewrite <- Hsa. cbn [strip t_set]. exact Hset2. }
-  rewrite (consume_inh_irrelevant (inh_of tasks (tupd (STR g) i ta) i) (inherit tasks g2 i) ta r' Hseta).
-  rewrite (consume_inh_irrelevant (inherit tasks g2 i) 0 ts2 r' Hset2).
-  rewrite (consume_inh_irrelevant (inherit tasks g2 i) 0 ta r' Hseta).
-  (* consuming r' does not look at the display depth *)
-  assert (Hcons : forall x : tstate, t_set x = true ->
-            t_stack (consume_task 0 x r') = t_stack (consume_task 0 (set_dd x (t_dd x + 1)) r') /\
-            t_sc (consume_task 0 x r') = t_sc (consume_task 0 (set_dd x (t_dd x + 1)) r') /\
-            t_dd (consume_task 0 (set_dd x (t_dd x + 1)) r') = t_dd x + 1 /\
-            t_dd (consume_task 0 x r') = t_dd x /\
-            t_fork_dd (consume_task 0 x r') = t_fork_dd (consume_task 0 (set_dd x (t_dd x + 1)) r') /\
-            t_sc (consume_task 0 x r') = N.pred (t_sc x) /\
-            t_set (consume_task 0 (set_dd x (t_dd x + 1)) r') = true).
-  { intros [st sc dd fd stk t tl orp] Hst. cbn [t_set] in Hst. subst st.
-    unfold consume_task, count, account, first_setup, set_dd. rewrite Hty'.
-    cbn [t_set t_sc t_dd t_fork_dd t_stack t_ts t_ts_last t_orphan].
-    destruct (sc =? 0); cbn [t_set t_sc t_dd t_fork_dd t_stack t_ts t_ts_last t_orphan]; repeat split; reflexivity. }
-  destruct (Hcons sa) as (C1 & C2 & C3 & C4 & C5 & C6 & C7).
-  { rewrite <- Hsa. exact Hset2. }
-  fold ta in C1, C2, C3, C5, C7.
-  pose proof (strip_consume 0 ts2 r') as Hs3. rewrite Hsa in Hs3.
-  set (ts3 := consume_task 0 ts2 r') in *.
-  assert (Hstk3 : t_stack ts3 = t_stack (consume_task 0 sa r')) by (rewrite <- Hs3; reflexivity).
-  assert (Hsc3 : t_sc ts3 = t_sc (consume_task 0 sa r')) by (rewrite <- Hs3; reflexivity).
-  assert (Hsc2 : t_sc ts2 = t_sc sa) by (rewrite <- Hsa; reflexivity).
+  assert (Hsc : t_sc sa = t_sc ts2) by (rewrite <- Hsa; reflexivity).
+  set (ta := set_dd sa (depth + 1)).
+  assert (Hseta : t_set sa = true) by (rewrite <- Hsa; exact Hset2).
+  assert (Hlosta : t_lost sa = false) by (rewrite <- Hsa; exact Hlost2).
+  replace (t_lost ta) with false by (unfold ta; cbn [set_dd t_lost]; symmetry; exact Hlosta).
+  assert (Hseta' : t_set ta = true) by (unfold ta; cbn [set_dd t_set]; exact Hseta).
+  assert (Hset2' : t_set (set_dd ts2 depth) = true) by (cbn [set_dd t_set]; exact Hset2).
+  rewrite (consume_inh_irrelevant (inh_of tasks (tupd (STR g) i ta) i) 0 ta r' Hseta').
+  rewrite (consume_inh_irrelevant (inherit tasks g2 i) 0 (set_dd ts2 depth) r' Hset2').
+  destruct (consume_exit_dd r' Hty' sa depth Hseta Hlosta) as (C1 & C2 & C3 & C4).
+  fold ta in C1.
+  pose proof (strip_consume 0 (set_dd ts2 depth) r') as Hs3.
+  replace (strip (set_dd ts2 depth)) with (set_dd sa depth) in Hs3 by (rewrite <- Hsa; reflexivity).
+  set (ts3 := consume_task 0 (set_dd ts2 depth) r') in *.
+  set (sb := consume_task 0 (set_dd sa depth) r') in *.
+  rewrite C1. cbn [set_dd t_dd t_stack t_sc].
+  replace (N.pred (depth + 1)) with depth by lia.
   split.
   - rewrite events_warn_app by apply warn_of_warn. unfold events_of_line, mk.
     cbn [l_kind l_task l_indent l_name l_dur map core_of e_open e_task e_indent e_name e_dur app].
-    rewrite Hdd. f_equal. rewrite C3. replace (N.pred (t_dd sa + 1)) with (t_dd sa) by lia. rewrite Hdd.
-    rewrite Hstk3, C1. rewrite <- C2, <- Hsc3.
-    replace (t_sc ts2 - 1) with (t_sc ts3); [reflexivity|].
-    rewrite Hsc3, C6, <- Hsc2. lia.
+    f_equal. f_equal. f_equal. f_equal.
+    replace (t_stack ts3) with (t_stack sb) by (rewrite <- Hs3; reflexivity).
+    replace (t_sc ts2 - 1) with (t_sc sb); [reflexivity|].
+    rewrite C3, Hsc. lia.
   - unfold STR at 1. unfold consume. cbn [g_tasks]. rewrite map_tupd. fold (STR g2).
-    assert (HS2 : STR g2 = tupd (STR g) i sa).
-    { unfold g2, STR, tset, consume. cbn [g_tasks]. rewrite tupd_tupd, map_tupd, Hsa. reflexivity. }
+    assert (HS2 : STR g2 = tupd (STR g) i (set_dd sa depth)).
+    { unfold g2, STR, tset, consume. cbn [g_tasks]. rewrite tupd_tupd, map_tupd. f_equal. rewrite <- Hsa. reflexivity. }
     rewrite HS2, !tupd_tupd. f_equal.
-    rewrite Hget2, (consume_inh_irrelevant (inherit tasks g2 i) 0 ts2 r' Hset2). fold ts3. rewrite Hs3. rewrite C3. replace (N.pred (t_dd sa + 1)) with (t_dd sa) by lia.
-    (* both states agree field by field *)
-    pose proof (consume_orphan 0 sa r') as O3. pose proof (consume_orphan 0 ta r') as O4.
-    assert (X0 : t_orphan sa = t_orphan ta) by (unfold ta; reflexivity).
-    destruct (consume_task 0 sa r') as [st3 sc3 dd3 fd3 stk3 t3 tl3 or3] eqn:E3.
-    destruct (consume_task 0 ta r') as [st4 sc4 dd4 fd4 stk4 t4 tl4 or4] eqn:E4.
-    cbn [t_orphan] in O3, O4.
-    cbn [t_stack t_sc t_dd t_fork_dd t_set set_dd] in *.
-    pose proof (consume_ts 0 sa r') as [T1 T2]. pose proof (consume_ts 0 ta r') as [T3 T4].
-    rewrite E3 in T1, T2. rewrite E4 in T3, T4. cbn [t_ts t_ts_last] in *.
-    pose proof (consume_set 0 sa r') as S3. rewrite E3 in S3. cbn [t_set] in S3.
-    assert (t_ts sa = t_ts ta /\ t_ts_last sa = t_ts_last ta) as [X1 X2] by (unfold ta; split; reflexivity).
-    unfold set_dd. cbn [t_set t_sc t_dd t_fork_dd t_stack t_ts t_ts_last t_orphan]. f_equal; congruence.
+    rewrite Hget2, (consume_inh_irrelevant (inherit tasks g2 i) 0 (set_dd ts2 depth) r' Hset2'). fold ts3. rewrite Hs3.
+    destruct sb as [st3 sc3 dd3 fd3 stk3 t3 tl3 or3 us3 lo3]. cbn [t_dd] in C2. subst dd3. reflexivity.
 Qed.
 
 Lemma length_leaf_step c tasks g i r r' : length (g_tasks (snd (leaf_step c tasks g i r r'))) = length (g_tasks g).
@@ -825,12 +934,12 @@ Proof. unfold leaf_step. cbn [snd]. unfold consume, tset. cbn [g_tasks]. rewrite
 Lemma leaf_cond_true c i r tl : leaf_cond c i r tl = true ->
   r_type r = ENTRY /\ exists r' tl', tl = (i, r') :: tl' /\ r_type r' = EXIT.
 Proof.
-  unfold leaf_cond. destruct (r_type r); [|discriminate].
+  unfold leaf_cond. destruct (r_type r); try discriminate.
   destruct tl as [|[j r'] tl']; [discriminate|]. intros H.
   apply andb_true_iff in H. destruct H as [H H4]. apply andb_true_iff in H. destruct H as [H H3].
   apply andb_true_iff in H. destruct H as [H1 H2]. apply Nat.eqb_eq in H2. subst j.
   split; [reflexivity|]. exists r', tl'. split; [reflexivity|].
-  unfold is_exit in H4. destruct (r_type r'); [discriminate|reflexivity].
+  unfold is_exit in H4. destruct (r_type r'); try discriminate; reflexivity.
 Qed.
 
 (* with or without folding, the core events are those of the unfolded run on stripped states *)
@@ -954,11 +1063,12 @@ Theorem fork_child_continues forks tasks S i r tl p :
               | O => []
               | _ => mkev false i (N.pred (s_fork (nth p S sstate0))) (r_addr r) 0 (r_time r) :: rest
               end
+    | LOST => []
     end.
 Proof.
   intros Hp Hset Hfk. cbn [srun]. unfold s_inherit, s_first. rewrite Hp, Hset.
   apply N.eqb_neq in Hfk. rewrite Hfk. cbn [s_dd s_stk s_fork].
-  destruct (r_type r); [eexists; reflexivity|].
+  destruct (r_type r); [eexists; reflexivity| |exists []; reflexivity].
   destruct (N.to_nat (first_depth r)); cbn [repeat]; [exists []; reflexivity|].
   rewrite N.sub_diag. eexists; reflexivity.
 Qed.
@@ -972,14 +1082,38 @@ Proof.
   rewrite Forall_forall in Ha. apply Ha. exact Hx.
 Qed.
 
+Lemma in_proj i r l : In (i, r) l -> In r (proj i l).
+Proof.
+  intros H. unfold proj. apply in_map_iff. exists (i, r). split; [reflexivity|].
+  apply filter_In. split; [exact H|]. cbn. apply Nat.eqb_refl.
+Qed.
+
+Definition lost_free (tasks : list task) : bool := forallb (fun t => negb (has_lost t)) tasks.
+
+Lemma no_lost_merged sel tasks : lost_free tasks = true -> no_lost (merge (mask_queues sel tasks 0)).
+Proof.
+  intros H. apply Forall_forall. intros [i r] Hin. cbn [snd].
+  apply in_proj in Hin. rewrite proj_merged in Hin.
+  destruct (selected sel i); [|destruct Hin].
+  destruct (Nat.lt_ge_cases i (length tasks)) as [Hlt|Hge].
+  - unfold lost_free in H. rewrite forallb_forall in H. specialize (H _ (nth_In tasks (mktask None []) Hlt)).
+    apply negb_true_iff in H. unfold has_lost in H.
+    destruct (is_lost r) eqn:E; [|reflexivity].
+    assert (existsb is_lost (k_recs (nth i tasks (mktask None []))) = true) by (apply existsb_exists; exists r; auto).
+    congruence.
+  - rewrite nth_overflow in Hin by exact Hge. destruct Hin.
+Qed.
+
 Theorem lines_in_time_order forks sel tasks :
+  lost_free tasks = true ->
   Forall time_sorted (map k_recs tasks) ->
   let ls := filter not_warn (fst (replay_raw (mkcfg false forks) sel tasks)) in
   map tag_of_line ls = map tag_of_rec (merge (mask_queues sel tasks 0)) /\
   Sorted.StronglySorted N.le (map l_time ls).
 Proof.
-  intros Hs ls. unfold ls, replay_raw.
-  pose proof (run_nofold_tags (mkcfg false forks) tasks eq_refl (merge (mask_queues sel tasks 0)) (init_g sel tasks)) as Ht.
+  intros Hnl Hs ls. unfold ls, replay_raw.
+  pose proof (run_nofold_tags (mkcfg false forks) tasks eq_refl (merge (mask_queues sel tasks 0)) (init_g sel tasks)
+                              (no_lost_merged sel tasks Hnl)) as Ht.
   split; [exact Ht|].
   replace (map l_time (filter not_warn (fst (run (mkcfg false forks) tasks (merge (mask_queues sel tasks 0)) (init_g sel tasks)))))
     with (map snd (map tag_of_line (filter not_warn (fst (run (mkcfg false forks) tasks (merge (mask_queues sel tasks 0)) (init_g sel tasks))))))
@@ -1007,6 +1141,7 @@ Definition s_after (forks : list N) (ss : sstate) (r : rec) : sstate :=
   | ENTRY => mkss true (s_dd ss + 1) (if existsb (N.eqb (r_addr r)) forks then s_dd ss + 1 else s_fork ss)
                   (r_time r :: s_stk ss) (s_orphan ss)
   | EXIT => mkss true (N.pred (s_dd ss)) (s_fork ss) (tl (s_stk ss)) (s_orphan ss)
+  | LOST => ss
   end.
 
 Lemma sstep_explicit forks tasks S i r rest tl : wfrem (nth i S sstate0) (r :: rest) ->
@@ -1018,7 +1153,7 @@ Proof.
   intros Hwf ss.
   destruct (wfrem_first (s_inherit tasks S i) _ _ _ Hwf) as (last & Hwf1 & Hle & Hlast & Hbound).
   fold ss in Hwf1, Hle. cbn [srun]. fold ss. unfold s_after. cbn [wf_stream] in *.
-  destruct (r_type r) eqn:Hty.
+  destruct (r_type r) eqn:Hty; [| |rewrite !andb_false_r in Hwf1; discriminate].
   - eexists. split; [reflexivity|]. split; [|reflexivity].
     unfold wfrem. cbn [s_set s_stk]. exists (r_time r). split.
     + cbn [length]. replace (N.of_nat (Datatypes.S (length (s_stk ss)))) with (N.of_nat (length (s_stk ss)) + 1) by lia. lia.
@@ -1061,7 +1196,7 @@ Proof.
     rewrite E1'.
     assert (ev = ev').
     { cbn [srun] in E1, E1'. rewrite <- ?Hinh, <- ?(Hag j Esj) in E1'. fold ss in E1, E1'.
-      destruct (r_type r); [inversion E1; inversion E1'; congruence|].
+      destruct (r_type r); [inversion E1; inversion E1'; congruence| |discriminate].
       destruct (s_stk ss); [discriminate|inversion E1; inversion E1'; congruence]. }
     subst ev'. f_equal. apply IH.
     + rewrite !length_supd. exact Hlen.
@@ -1194,8 +1329,9 @@ Qed.
 Lemma lookup_shift cols l n : lookup_col cols (l_task (shift l n)) = lookup_col cols (l_task l).
 Proof. reflexivity. Qed.
 
+Definition call_line (l : line) : bool := match l_kind l with KOpen | KLeaf | KClose => true | _ => false end.
 Lemma uncolumn_shift off cols next l n rest :
-  not_warn l = true -> not_blank l = true ->
+  call_line l = true ->
   uncolumn off cols next (shift l n :: rest) =
   match lookup_col cols (l_task l) with
   | Some c => mkline (l_kind l) (l_task l) (l_indent l + n - c * off) (l_name l) (l_dur l) (l_addr l) (l_time l) (l_delta l) (l_elapsed l)
@@ -1204,7 +1340,7 @@ Lemma uncolumn_shift off cols next l n rest :
                 :: uncolumn off ((l_task l, next) :: cols) (next + 1) rest
   end.
 Proof.
-  unfold not_warn, not_blank. intros H1 H2. cbn [uncolumn]. unfold shift. cbn [l_kind l_task l_indent l_name l_dur l_addr l_time l_delta l_elapsed].
+  unfold call_line. intros H1. cbn [uncolumn]. unfold shift. cbn [l_kind l_task l_indent l_name l_dur l_addr l_time l_delta l_elapsed].
   destruct (l_kind l); try discriminate; reflexivity.
 Qed.
 
@@ -1216,7 +1352,7 @@ Proof.
   destruct (l_kind l) eqn:Ek;
     try (cbn [uncolumn]; rewrite Ek; rewrite IH; reflexivity);
     (destruct (lookup_col cols (l_task l)) as [c|] eqn:El;
-     rewrite uncolumn_shift by (unfold not_warn, not_blank; rewrite Ek; reflexivity);
+     rewrite uncolumn_shift by (unfold call_line; rewrite Ek; reflexivity);
      rewrite El, IH; f_equal; destruct l; cbn in *; f_equal; lia).
 Qed.
 
@@ -1262,3 +1398,194 @@ Example orphan_fork_child_continues :
     (false, 1%nat, 3, 0, 15); (true, 2%nat, 3, 3, 0); (false, 2%nat, 3, 0, 1);
     (false, 1%nat, 2, 0, 25); (false, 2%nat, 2, 0, 20); (false, 1%nat, 1, 0, 35) ].
 Proof. vm_compute. reflexivity. Qed.
+
+(* ------------------------------------------------------------------ LOST markers: nesting restarts at the depth field *)
+Lemma consume_lost_set inh ts r : is_lost r = true -> t_lost (consume_task inh ts r) = true.
+Proof.
+  intros H. unfold consume_task. rewrite H, andb_true_r.
+  destruct (t_lost (first_setup inh ts r)) eqn:E; [exact E|].
+  unfold count. cbn [t_lost]. unfold account, is_lost in *. destruct (r_type r); try discriminate. reflexivity.
+Qed.
+
+Lemma consume_entry_fields inh ts r : t_set ts = true -> r_type r = ENTRY ->
+  t_sc (consume_task inh ts r) = (if t_lost ts then r_depth r else t_sc ts) + 1 /\
+  t_dd (consume_task inh ts r) = t_dd ts.
+Proof.
+  intros Hs Hty. destruct ts as [st sc dd fd stk t tl orp usc lost]. cbn [t_set] in Hs. subst st.
+  unfold consume_task, first_setup, is_lost. rewrite Hty. cbn [t_set t_lost]. rewrite andb_false_r.
+  unfold count, account, resync. rewrite Hty. cbn [t_lost]. destruct lost; cbn [t_sc t_dd]; split; reflexivity.
+Qed.
+
+Lemma consume_exit_fields inh ts r : t_set ts = true -> r_type r = EXIT ->
+  t_sc (consume_task inh ts r) = N.pred (if t_lost ts then r_depth r + 1 else t_sc ts) /\
+  t_dd (consume_task inh ts r) = t_dd ts.
+Proof.
+  intros Hs Hty. destruct ts as [st sc dd fd stk t tl orp usc lost]. cbn [t_set] in Hs. subst st.
+  unfold consume_task, first_setup, is_lost. rewrite Hty. cbn [t_set t_lost]. rewrite andb_false_r.
+  unfold count, account, resync. rewrite Hty. cbn [t_lost t_sc].
+  destruct lost; cbn [t_sc t_dd].
+  - destruct (r_depth r + 1 =? 0); cbn [t_sc t_dd]; split; reflexivity.
+  - destruct (sc =? 0); cbn [t_sc t_dd]; split; reflexivity.
+Qed.
+
+(* tracker state of a task vs. its reader state *)
+Definition trk_ok (ts : tstate) (t : track) : Prop :=
+  match t with
+  | TNone => True
+  | TPending => t_set ts = true /\ t_lost ts = true
+  | TSynced d => t_set ts = true /\ t_lost ts = false /\ t_sc ts = d /\ t_dd ts = d
+  end.
+Definition TRel (g : gstate) (T : list track) : Prop :=
+  length (g_tasks g) = length T /\ forall i, trk_ok (tget g i) (nth i T TNone).
+
+Lemma nth_tkupd : forall l i x j, (i < length l)%nat ->
+  nth j (tkupd l i x) TNone = if Nat.eqb j i then x else nth j l TNone.
+Proof.
+  induction l as [|h t IH]; intros i x j Hi; cbn in Hi; [lia|].
+  destruct i as [|i]; destruct j as [|j]; cbn; try reflexivity. apply IH. lia.
+Qed.
+Lemma length_tkupd : forall l i x, length (tkupd l i x) = length l.
+Proof. induction l as [|h t IH]; intros [|i] x; cbn; auto. Qed.
+
+(* what a record that is not a LOST marker shows, in terms of the record *)
+Definition shows (i : nat) (r : rec) (m : bool) (e : event) : Prop :=
+  e_task e = i /\ e_open e = negb (is_exit r) /\ e_name e = r_addr r /\ e_time e = r_time r /\
+  (m = true -> e_indent e = r_depth r).
+
+Fixpoint aligned (l : list (nat * rec)) (ms : list bool) (es : list event) : Prop :=
+  match l, ms with
+  | [], _ => es = []
+  | (i, r) :: tl, m :: ms' =>
+      if is_lost r then aligned tl ms' es
+      else match es with
+           | e :: es' => shows i r m e /\ aligned tl ms' es'
+           | [] => False
+           end
+  | _ :: _, [] => False
+  end.
+
+Lemma step_track forks tasks g T i r : TRel g T -> (i < length T)%nat ->
+  let c := mkcfg false forks in
+  let tm := track_step (nth i T TNone) r in
+  TRel (snd (step c tasks g i r)) (tkupd T i (fst tm)) /\
+  (if is_lost r then events_of (fst (step c tasks g i r)) = []
+   else exists e, events_of (fst (step c tasks g i r)) = [e] /\ shows i r (snd tm) e).
+Proof.
+  intros [Hlen Hall] Hi c tm.
+  assert (Hig : (i < length (g_tasks g))%nat) by lia.
+  pose proof (Hall i) as Hti.
+  assert (Hother : forall g' x t, g_tasks g' = tupd (g_tasks g) i x -> trk_ok x t -> TRel g' (tkupd T i t)).
+  { intros g' x t Hg Hx. split; [rewrite Hg, length_tupd, length_tkupd; exact Hlen|].
+    intros j. unfold tget. rewrite Hg, nth_tupd by assumption. rewrite nth_tkupd by assumption.
+    destruct (Nat.eqb j i); [exact Hx|apply Hall]. }
+  unfold step, is_lost, shows, is_exit. subst tm. unfold track_step.
+  rewrite (tget_consume _ _ _ _ Hig).
+  set (inh := inherit tasks g i). set (ts := tget g i) in *.
+  destruct (r_type r) eqn:Hty; cbn [fst snd].
+  - (* ENTRY *)
+    assert (Hev : forall ws ln, Forall (fun w => not_warn w = false) ws -> l_kind ln = KOpen ->
+              events_of (ws ++ [ln]) = [mkev true (l_task ln) (l_indent ln) (l_name ln) 0 (l_time ln)]).
+    { intros ws ln Hw Hk. rewrite events_warn_app by exact Hw. unfold events_of_line. rewrite Hk. reflexivity. }
+    split.
+    + eapply Hother.
+      * unfold tset, consume. cbn [g_tasks]. rewrite tupd_tupd. reflexivity.
+      * destruct (nth i T TNone) as [| |d]; cbn [trk_ok fst] in *; [exact I| |].
+        -- destruct Hti as [Hs Hl]. destruct (consume_entry_fields inh ts r Hs Hty) as [Fsc Fdd]. rewrite Hl in *.
+           unfold is_fork. cbn [c c_forks].
+           destruct (existsb (N.eqb (r_addr r)) forks); cbn [set_dd set_fork stamp t_set t_lost t_sc t_dd];
+             rewrite consume_set, consume_lost_clear by (unfold is_lost; rewrite Hty; reflexivity);
+             repeat split; try assumption; rewrite Fsc; lia.
+        -- destruct Hti as (Hs & Hl & Hsc & Hdd). destruct (consume_entry_fields inh ts r Hs Hty) as [Fsc Fdd]. rewrite Hl in *.
+           destruct (r_depth r =? d) eqn:Ed; cbn [trk_ok fst]; [|exact I].
+           unfold is_fork. cbn [c c_forks].
+           destruct (existsb (N.eqb (r_addr r)) forks); cbn [set_dd set_fork stamp t_set t_lost t_sc t_dd];
+             rewrite consume_set, consume_lost_clear by (unfold is_lost; rewrite Hty; reflexivity);
+             repeat split; try assumption; rewrite ?Fsc, ?Fdd; lia.
+    + eexists. split; [apply Hev; [apply warn_of_warn|reflexivity]|].
+      unfold mk. cbn [l_task l_indent l_name l_time e_task e_open e_name e_time e_indent negb].
+      repeat split; try reflexivity.
+      * unfold is_fork. cbn [c c_forks]. destruct (existsb (N.eqb (r_addr r)) forks); reflexivity.
+      * intros Hm. destruct (nth i T TNone) as [| |d]; cbn [trk_ok snd] in *; [discriminate| |].
+        -- destruct Hti as [Hs Hl]. destruct (consume_entry_fields inh ts r Hs Hty) as [Fsc Fdd]. rewrite Hl in *.
+           unfold is_fork. cbn [c c_forks]. destruct (existsb (N.eqb (r_addr r)) forks); cbn [set_fork stamp t_sc]; rewrite Fsc; lia.
+        -- destruct Hti as (Hs & Hl & Hsc & Hdd). destruct (consume_entry_fields inh ts r Hs Hty) as [Fsc Fdd]. rewrite Hl in *.
+           destruct (r_depth r =? d) eqn:Ed; cbn [snd] in Hm; [|discriminate].
+           unfold is_fork. cbn [c c_forks]. destruct (existsb (N.eqb (r_addr r)) forks); cbn [set_fork stamp t_dd]; rewrite Fdd; lia.
+  - (* EXIT *)
+    split.
+    + eapply Hother.
+      * unfold tset, consume. cbn [g_tasks]. rewrite tupd_tupd. reflexivity.
+      * destruct (nth i T TNone) as [| |d]; cbn [trk_ok fst] in *; [exact I| |].
+        -- destruct Hti as [Hs Hl]. destruct (consume_exit_fields inh ts r Hs Hty) as [Fsc Fdd]. rewrite Hl in *.
+           cbn [set_dd stamp t_set t_lost t_sc t_dd].
+           rewrite consume_set, consume_lost_clear by (unfold is_lost; rewrite Hty; reflexivity).
+           repeat split; try assumption; rewrite Fsc; lia.
+        -- destruct Hti as (Hs & Hl & Hsc & Hdd). destruct (consume_exit_fields inh ts r Hs Hty) as [Fsc Fdd]. rewrite Hl in *.
+           destruct ((0 <? d) && (r_depth r + 1 =? d)) eqn:Ed; cbn [trk_ok fst]; [|exact I].
+           cbn [set_dd stamp t_set t_lost t_sc t_dd].
+           rewrite consume_set, consume_lost_clear by (unfold is_lost; rewrite Hty; reflexivity).
+           repeat split; try assumption; rewrite ?Fsc, ?Fdd; lia.
+    + eexists. split.
+      * rewrite events_warn_app by apply warn_of_warn. unfold events_of_line, mk. cbn [l_kind]. reflexivity.
+      * cbn [l_task l_indent l_name l_time e_task e_open e_name e_time e_indent negb]. repeat split; try reflexivity.
+        intros Hm. destruct (nth i T TNone) as [| |d]; cbn [trk_ok snd] in *; [discriminate| |].
+        -- destruct Hti as [Hs Hl]. destruct (consume_exit_fields inh ts r Hs Hty) as [Fsc Fdd]. rewrite Hl in *.
+           cbn [stamp t_sc]. rewrite Fsc. lia.
+        -- destruct Hti as (Hs & Hl & Hsc & Hdd). destruct (consume_exit_fields inh ts r Hs Hty) as [Fsc Fdd]. rewrite Hl in *.
+           destruct ((0 <? d) && (r_depth r + 1 =? d)) eqn:Ed; cbn [snd] in Hm; [|discriminate].
+           cbn [stamp t_dd]. rewrite Fdd. lia.
+  - (* LOST *)
+    split.
+    + eapply Hother.
+      * unfold consume. cbn [g_tasks]. reflexivity.
+      * cbn [trk_ok fst]. split; [apply consume_set|apply consume_lost_set; unfold is_lost; rewrite Hty; reflexivity].
+    + apply events_warn_lost; [apply warn_of_warn|].
+      destruct (t_usc _ =? 0); repeat constructor.
+Qed.
+
+(* C06 with LOST markers: in the --no-merge view every ENTRY/EXIT record is shown (its task, name,
+   timestamp), LOST markers show no call, and every record in a depth-consistent stretch after a
+   LOST marker of its task is indented by its own depth field *)
+Theorem lost_resync forks tasks : forall l g T, TRel g T ->
+  Forall (fun p => (fst p < length T)%nat) l ->
+  aligned l (marks l T) (events_of (fst (run (mkcfg false forks) tasks l g))).
+Proof.
+  induction l as [|[i r] tl IH]; intros g T HR Hb; [reflexivity|].
+  inversion Hb as [|? ? Hi Hb']; subst. cbn [fst] in Hi.
+  rewrite run_nofold_cons by reflexivity. cbn [marks aligned].
+  destruct (step_track forks tasks g T i r HR Hi) as [HR' Hev]. cbn zeta in HR', Hev.
+  destruct (track_step (nth i T TNone) r) as [t' m] eqn:Etk. cbn [fst snd] in *.
+  destruct (step (mkcfg false forks) tasks g i r) as [ls g'] eqn:Es. cbn [fst snd] in *.
+  specialize (IH g' (tkupd T i t') HR').
+  destruct (run (mkcfg false forks) tasks tl g') as [out g''] eqn:Er. cbn [fst] in *.
+  rewrite events_of_app.
+  assert (Hb2 : Forall (fun p => (fst p < length (tkupd T i t'))%nat) tl) by (rewrite length_tkupd; exact Hb').
+  destruct (is_lost r).
+  - rewrite Hev. cbn [app]. apply IH. exact Hb2.
+  - destruct Hev as (e & -> & Hsh). cbn [app]. split; [exact Hsh|apply IH; exact Hb2].
+Qed.
+
+Definition T0 (tasks : list task) : list track := map (fun _ => TNone) tasks.
+
+Theorem replay_lost_resync forks sel tasks :
+  aligned (merge (mask_queues sel tasks 0)) (marks (merge (mask_queues sel tasks 0)) (T0 tasks))
+          (events_of (fst (replay_raw (mkcfg false forks) sel tasks))).
+Proof.
+  unfold replay_raw. apply lost_resync.
+  - split; [unfold init_g, T0; cbn [g_tasks]; rewrite !map_length; reflexivity|].
+    intros i. unfold T0. rewrite (nth_const tasks TNone i). exact I.
+  - pose proof (merge_tags_valid (mask_queues sel tasks 0)) as H.
+    rewrite mask_queues_mask, length_mask, map_length in H. unfold T0. rewrite map_length.
+    rewrite mask_queues_mask. exact H.
+Qed.
+
+(* non-vacuity: main { foo { bar { qux {  LOST  baz() at depth 1, } of main at depth 0 *)
+Definition lost_witness : list task :=
+  [ mktask None [mkrec 1000 ENTRY 0 1; mkrec 1010 ENTRY 1 2; mkrec 1020 ENTRY 2 3; mkrec 1030 ENTRY 3 4;
+                 mkrec 0 LOST 0 12; mkrec 1100 ENTRY 1 5; mkrec 1110 EXIT 1 5; mkrec 1200 EXIT 0 1] ].
+Example lost_witness_marks :
+  marks (merge (mask_queues None lost_witness 0)) (T0 lost_witness) = [false; false; false; false; false; true; true; true] /\
+  map core_of (events_of (fst (replay_raw (mkcfg true []) None lost_witness))) =
+  [ (true, 0%nat, 0, 1, 0); (true, 0%nat, 1, 2, 0); (true, 0%nat, 2, 3, 0); (true, 0%nat, 3, 4, 0);
+    (true, 0%nat, 1, 5, 0); (false, 0%nat, 1, 0, 10); (false, 0%nat, 0, 0, 200) ].
+Proof. split; vm_compute; reflexivity. Qed.
